@@ -280,6 +280,7 @@ def check_cases(rep: Report, cases, stream: str):
 
 def run(rep: Report):
     rng = Rng(rep.seed * 1000003 + 4)
+    from .. import opscheck; opscheck.check_ops(rep, ["count"])
     check_cases(rep, all_cases(rng, rep.tier), "functional")
 
 
